@@ -92,6 +92,9 @@ pub fn set_yield(every: u64, f: Option<fn()>) {
     YIELD_FN.with(|y| y.set(f));
 }
 
+pub fn reset_steps() {
+    STEPS.with(|s| s.set(0));
+}
 pub fn steps() -> u64 {
     STEPS.with(|s| s.get())
 }
